@@ -359,7 +359,7 @@ def run(ctx):
     from mq.report import RuleView
     before7 = len(ctx.instances)
     c02.run(RuleView(ctx, {"R02.6": "R03.7"}))
-    ctx.floor("R03.7", "sanitizer obligations", len([i for i in ctx.instances[before7:] if i["rule"] == "R03.7"]), 4)
+    ctx.floor("R03.7", "sanitizer obligations", len([i for i in ctx.instances[before7:] if i["rule"] == "R03.7"]), 2)
     # ------------------------------------------------------------------ R03.5 dimension sets rebuilt per call
     import rules.c14 as c14
     before = len(ctx.instances)
